@@ -80,10 +80,19 @@ def decorate(core, rnd, variant):
         doc.append({"n": "kwargs", "typ": "absent"})
     kind = variant["kind"]
     attrs = []
+    init_doc = True
     if kind == "class":
         for an in ("width", "depth")[: rnd.choice([0, 1, 2])]:
             attrs.append({"n": an, "ann": rnd.choice(["int", "str"]), "documented": rnd.random() < 0.6})
-    return {"params": params, "kwargs": kwargs, "doc": doc, "style": variant["style"], "kind": kind, "attrs": attrs}
+        if rnd.random() < 0.3:
+            # an __init__ without a docstring of its own (nothing documents its parameters); half of them keyword-only throughout
+            init_doc, doc = False, []
+            if kwargs == "doc":
+                kwargs = "undoc"
+            if rnd.random() < 0.5:
+                for p in params:
+                    p["pk"] = "kwonly"
+    return {"params": params, "kwargs": kwargs, "doc": doc, "style": variant["style"], "kind": kind, "attrs": attrs, "init_doc": init_doc}
 
 
 def render_doc(sc, entries, summary="Do the thing.", indent="    ", key="param"):
@@ -145,6 +154,8 @@ def render(sc):
                 % (sig_text("self"), render_doc(sc, sc["doc"], indent="        ")))
     cdoc = render_doc(sc, [{"n": a["n"], "typ": "absent"} for a in sc["attrs"] if a["documented"]], summary="A configurable thing.", key="cvar")
     body = "".join("    %s: %s = %r\n" % (a["n"], TYP[a["ann"]], DEFVAL[a["ann"]]) for a in sc["attrs"])
+    if not sc.get("init_doc", True):
+        return ("from typing import Optional\n\n\nclass C(object):\n    \"\"\"\n    %s\n    \"\"\"\n\n%s\n    def __init__(%s):\n        pass\n" % (cdoc, body, sig_text("self")))
     return ("from typing import Optional\n\n\nclass C(object):\n    \"\"\"\n    %s\n    \"\"\"\n\n%s\n    def __init__(%s):\n        \"\"\"\n        %s\n        \"\"\"\n        pass\n"
             % (cdoc, body, sig_text("self"), render_doc(sc, sc["doc"], summary="Build it.", indent="        ")))
 
@@ -317,7 +328,7 @@ def feat_c07(sc, clause, name, rec):
             "documented": d is not None, "doctyp": (d["typ"] if d else "none"), "doctyp_rel": ("none" if not d else ("absent" if d["typ"] == "absent" else ("same" if p and d["typ"] == p["ann"] else "other"))),
             "ndoc": len(sc["doc"]), "doc_in_order": [x["n"] for x in sc["doc"] if x["n"] != "kwargs"] == [x["n"] for x in sc["params"] if any(y["n"] == x["n"] for y in sc["doc"])],
             "kwargs": sc["kwargs"] or "none", "obs": r[1:] if r else "missing", "exc": rec["exc"], "any_untyped_doc": any(x["typ"] == "absent" for x in sc["doc"]),
-            "nattrs": len(sc["attrs"]), "comps": []}
+            "nattrs": len(sc["attrs"]), "init_doc": sc.get("init_doc", True), "comps": []}
 
 
 def run(prop, propose=False, replay=None):
